@@ -88,6 +88,16 @@ Theorem C10_library_donations :
   Gen_c10_optimizers.optax_apply_donates = [].
 Proof. exact library_donations. Qed.
 
+(* the new state, the diagnostics and the aggregate are NEW objects: none of them is an object of the arguments *)
+Theorem C10_new_objects_are_fresh : forall a W K rd s st cl σ',
+  exec (script_of a W K rd) (mkSt s [(st_r, st); (cl_r, cl)]) = Some σ' ->
+  forall k l, lookup (ven σ') (ROwn k) = Some l -> length s <= l.
+Proof. exact new_objects_are_fresh. Qed.
+
+(* `closed`, the hypothesis of C10_repeatable, is implied by the boolean that C10_agree asserts on every round's store *)
+Theorem C10_closedb_closed : forall s, closedb s = true -> closed s.
+Proof. exact closedb_closed. Qed.
+
 (* the check is not vacuous: the pre-fix APFL script (in-place write into the input table) is
    rejected by the well-formedness check and does change an input cell when run *)
 Example C10_apfl_inplace_refuted :
@@ -113,6 +123,18 @@ Example C10_example :
   match init_store (c_init c) with (s, st) => run_hist AFedAvg 1 2 s st 0 (c_rounds c) <> None end.
 Proof. vm_compute. split; [reflexivity | discriminate]. Qed.
 
+(* a round WITHOUT clients runs in every script (the accumulators start as None), and its stores are closed *)
+Example C10_empty_cohort_example :
+  forallb (fun a => match C10_run (mkC10 a 2 2 (match a with
+                                                 | AAgnostic => [SA 0; SA 1; SA 2; SL [3; 3]]
+                                                 | AHyp => [SL [0; 1]; SL [2; 3]]
+                                                 | AApfl => [SA 0; SA 1; SD []]
+                                                 | _ => [SA 0; SA 1] end)
+                                        [mkRd [2; 0]%Z [1; 0] [true; true]; mkRd [] [] [false; false]; mkRd [1]%Z [0] [true; false]]) with
+                    | Some obs => Nat.eqb (length obs) 3 | None => false end)
+          [AFedAvg; AMime; AMimeLite; AAgnostic; AHyp; AApfl; QUniform; QUniformArith; QRotated; QDrive; QTern] = true.
+Proof. vm_compute. reflexivity. Qed.
+
 Print Assumptions C10_apply_frames_input.
 Print Assumptions C10_apply_is_function_of_values.
 Print Assumptions C10_repeatable.
@@ -122,3 +144,5 @@ Print Assumptions C10_source_effects_wf.
 Print Assumptions C10_scripts_match_source.
 Print Assumptions C10_library_donations.
 Print Assumptions C10_next_key_is_source_depth.
+Print Assumptions C10_new_objects_are_fresh.
+Print Assumptions C10_closedb_closed.
